@@ -329,6 +329,10 @@ def run_c05(fe, spec, pk, sh, stats):
     pre = ref_enc(RefCtx(spec), prepk, premsg)
     payload = [z3.BitVec('pay#%d' % i, 8) for i in range(8)]
     data = list(pre) + payload
+    from .pspec import PAYLOAD_DOMAIN
+    if pk.root:
+        for i, vals in PAYLOAD_DOMAIN.get(spec.name, []):
+            asm.append(z3.Or([payload[i] == v for v in vals]))
     keyval = msg.v[mf.key]
     ctl = PathCtl(asm, max_paths=64)
 
@@ -792,6 +796,14 @@ def worker(job):
                         cells_c06(prop, fe, spec, pk, sh, stats, res, ntrail)
                     elif prop == 'C07':
                         res.extend(run_c07_influence(fe, spec, pk, sh, stats))
+                        if spec.family == 'dispatch' and not sh.alt:
+                            # completeness of the dispatch: every key the DSL declares has its decode step (a key silently
+                            # dropped from the emitted table is a declared construct without code); same queries as C05
+                            for f in run_c05(fe, spec, pk, sh, stats):
+                                if 'dispatch' in f.symptom or 'decode' in f.symptom:
+                                    f.prop = 'C07'
+                                    f.symptom = 'declared-key:' + f.symptom
+                                    res.append(f)
                 except Unsupported as u:
                     out['inconclusive'].append((lang, '%s/%s: %s' % (pk.name, sh.ident(), str(u)[:160])))
                 except MissingMember as m:
